@@ -91,57 +91,53 @@ func VH_C02_Step() {
 // says the plaintext returned to the reader is *always* a prefix of what the
 // peer wrote; a reader that calls Read again after an error (any net.Conn
 // user may) must therefore never be handed anything but the next honest
-// record it has not returned yet. The initiator writes three records; the
-// relay delivers a slice of the honest stream with one byte XORed (symbolic
-// position and mask; position beyond the slice = untouched) followed by a
-// second slice of the honest stream or junk; the reader calls ReadMessage
-// `reads` times whatever the outcome. Every successful call must return
-// exactly the next record in order.
+// record it has not returned yet. The initiator writes three records (lengths
+// 0, 2 or 5 each - two bytes makes a body as long as an encrypted header); the
+// wire consists of six segments (header and body of each record); the relay
+// corrupts one byte of segment k (symbolic non-zero mask), drops segment k, or
+// delivers segment k twice; the reader calls ReadMessage until the input is
+// used up, whatever the outcomes. Every successful call must return exactly
+// the next record in order.
 func VH_C02_AfterError() {
 	ini, rsp := vMachines()
-	maxRec := vParam("maxrec", 40)
 	const nrec = 3
 	var recs [nrec][]byte
-	var lens [nrec]int
-	w := &vPipeConn{out: make([]byte, 0, nrec*(maxRec+40))}
+	var segs [2 * nrec][]byte
 	for i := 0; i < nrec; i++ {
-		lens[i] = vInt("len")
-		vAssume(lens[i] >= 0 && lens[i] <= maxRec)
-		recs[i] = vStream("rec", lens[i])
+		recs[i] = vBytes("rec", [3]int{0, 2, 5}[vIntRange("len_idx", 0, 2)])
+		w := &vPipeConn{}
 		vAssert(ini.WriteMessage(recs[i]) == nil, "WriteMessage failed")
 		_, err := ini.Flush(w)
-		vAssert(err == nil, "Flush failed")
+		vAssert(err == nil && len(w.out) == 18+len(recs[i])+16, "Flush failed")
+		segs[2*i], segs[2*i+1] = w.out[:18], w.out[18:]
 	}
-	honest := w.out
-	in := make([]byte, 0, 3*nrec*(maxRec+40))
-	// first segment: honest prefix [0,b) with one flipped byte
-	b := vInt("b")
-	vAssume(b >= 0 && b <= len(honest))
-	in = append(in, honest[:b]...)
-	pos, mask := vInt("pos"), vU8("mask")
-	vAssume(pos >= 0 && pos < b && mask != 0)
-	in[pos] ^= mask
-	// second segment: any slice of the honest stream (replay, skip ahead,
-	// plain continuation) or junk
-	if vBool("junk2") {
-		a2 := vInt("a2")
-		vAssume(a2 >= 0 && a2 <= 100)
-		in = append(in, vStream("junk", a2)...)
-	} else {
-		a2, b2 := vInt("a2"), vInt("b2")
-		vAssume(a2 >= 0 && a2 <= b2 && b2 <= len(honest))
-		in = append(in, honest[a2:b2]...)
+	mode := vIntRange("mode", 0, 2) // 0 corrupt, 1 drop, 2 duplicate
+	k := vIntRange("segment", 0, 2*nrec-1)
+	var in []byte
+	for i, sg := range segs {
+		if i == k {
+			switch mode {
+			case 0:
+				bad := make([]byte, len(sg))
+				copy(bad, sg)
+				mask := vU8("mask")
+				vAssume(mask != 0)
+				bad[0] ^= mask
+				sg = bad
+			case 1:
+				continue
+			case 2:
+				in = append(in, sg...)
+			}
+		}
+		in = append(in, sg...)
 	}
 	rd := &vPipeConn{buf: in}
 	expect := 0
-	reads := vParam("reads", 4)
-	for i := 0; i < reads; i++ {
+	for i := 0; i < 2*nrec+2 && rd.off < len(rd.buf); i++ {
 		m, err := rsp.ReadMessage(rd)
 		if err != nil {
 			vReach("after-error")
-			if rd.off >= len(rd.buf) {
-				break
-			}
 			continue
 		}
 		vReach("after-error-accepted")
@@ -149,11 +145,7 @@ func VH_C02_AfterError() {
 		if expect >= nrec {
 			return
 		}
-		vAssert(len(m) == lens[expect], "after a read error a record was returned that is not the next honest record: what the reader has received is no longer a prefix of what the peer wrote (length)")
-		j := vInt("j")
-		if j >= 0 && j < len(m) && j < lens[expect] {
-			vAssert(m[j] == recs[expect][j], "after a read error a record was returned that is not the next honest record (content)")
-		}
+		vAssert(vBytesEq(m, recs[expect]), "a record was returned that is not the next honest record: after a read error the reader was handed later or foreign data, so what it has received is no longer a prefix of what the peer wrote")
 		expect++
 	}
 }
